@@ -124,12 +124,21 @@ impl Property for C17 {
         "C17"
     }
     fn cases(&self, tier: Tier) -> u32 {
-        tier.pick(1_600, 16_000)
+        tier.pick(1_000, 10_000)
     }
     fn strategy(&self, _tier: Tier) -> BoxedStrategy<Self::Abs> {
         prop_oneof![
-            6 => (abs_chunks(4, 14, 8, false), any::<bool>(), Just(4000usize)),
-            1 => (abs_chunks(3, 30, 300, false), any::<bool>(), Just(400_000usize)),
+            12 => (abs_chunks(4, 14, 8, false), any::<bool>(), Just(4000usize)),
+            2 => (abs_chunks(3, 30, 300, false), any::<bool>(), Just(400_000usize)),
+            // a chunk with a compressed payload above 32 KiB / of exactly 64 KiB
+            1 => (
+                prop::collection::vec(
+                    prop_oneof![1 => over_32k_packed_chunk().boxed(), 1 => exact_max_packed_chunk().boxed(), 2 => abs_chunk(6, 4).boxed()],
+                    1..=2
+                ),
+                any::<bool>(),
+                Just(400_000usize)
+            ),
         ]
         .boxed()
     }
@@ -154,6 +163,8 @@ impl Property for C17 {
             ("mut:input ends before end byte", 50_000 * k),
             ("mut:end marker inside chunk (fewer bytes than declared)", 1000 * k),
             ("mutated chunk has > 64 KiB output", 100 * k),
+            ("mutated chunk has > 32 KiB payload", 100 * k),
+            ("also through a fragmenting reader", 100_000 * k),
             ("unpacked+k decodable without more input (not asserted)", 0),
         ]
     }
@@ -167,14 +178,21 @@ impl Property for C17 {
             Err(e) => return Judgement::HarnessBug(e),
         };
         let io = Io::default();
-        let run = |bytes: &[u8]| -> sut::Run {
+        let run_with = |bytes: &[u8], rk: &ReaderKind| -> sut::Run {
             if c.in_xz {
                 let f = xz_wrap(bytes, &enc.output, 1);
-                sut::xz_decompress(&f, &ReaderKind::Slice, &io)
+                sut::xz_decompress(&f, rk, &io)
             } else {
-                sut::lzma2_decompress(bytes, &ReaderKind::Slice, &io)
+                sut::lzma2_decompress(bytes, rk, &io)
             }
         };
+        let run = |bytes: &[u8]| -> sut::Run { run_with(bytes, &ReaderKind::Slice) };
+        // fragmenting readers for the second opinion on each mutation
+        let frag = [
+            ReaderKind::BufReader { cap: 512, reads: vec![] },
+            ReaderKind::Chunky { pattern: vec![1], stops: vec![] },
+            ReaderKind::BufReader { cap: 8192, reads: vec![] },
+        ];
         // precondition: the valid stream decodes
         let base = run(&enc.bytes);
         if !base.verdict.is_ok() || base.out != enc.output {
@@ -207,7 +225,7 @@ impl Property for C17 {
                     }
                 }
                 if l.compressed {
-                    for d in [1usize, 2, 3, 5, l.payload_len / 2, l.payload_len.saturating_sub(5), l.payload_len - 1] {
+                    for d in [1usize, 2, 3, 5, 100, 1000, l.payload_len / 2, l.payload_len.saturating_sub(5), l.payload_len - 1, l.payload_len.saturating_sub(0x8000), l.payload_len.saturating_sub(0x7FFF)] {
                         muts.push(M::PackedMinus { c: ci, d });
                     }
                     // inside each copy's span
@@ -237,7 +255,7 @@ impl Property for C17 {
                     }
                 }
             }
-            let step = if enc.bytes.len() > 2000 { 7 } else { 1 };
+            let step = if enc.bytes.len() > 2000 { (enc.bytes.len() / 400).max(7) } else { 1 };
             let mut t = 0;
             while t < enc.bytes.len() {
                 muts.push(M::Trunc(t));
@@ -279,11 +297,21 @@ impl Property for C17 {
             if ci != usize::MAX && ci < enc.layout.len() && enc.layout[ci].unpacked > 65536 {
                 st.class("mutated chunk has > 64 KiB output");
             }
+            if ci != usize::MAX && ci < enc.layout.len() && enc.layout[ci].compressed && enc.layout[ci].payload_len > 32768 {
+                st.class("mutated chunk has > 32 KiB payload");
+            }
             let compressed = ci != usize::MAX && ci < enc.layout.len() && enc.layout[ci].compressed;
             if compressed || (ci != usize::MAX && ci >= 1) || matches!(m, M::Trunc(t) if t > 0) {
                 st.nontrivial(&(sh, &m));
             }
-            let r = run(&bytes);
+            let mut r = run(&bytes);
+            if r.verdict.is_err() && (bytes.len() < 3000 || hash64(&(&m, 7u8)) % 8 == 0) {
+                // the rejection must not depend on how much of the chunk the reader shows at once
+                st.eval();
+                st.class("also through a fragmenting reader");
+                let rk = &frag[(hash64(&m) % 3) as usize];
+                r = run_with(&bytes, rk);
+            }
             match &r.verdict {
                 Verdict::Err(_) => {}
                 Verdict::Ok => {
